@@ -81,7 +81,10 @@ INFO = dict(
                "Similarity / Rotation / Translation / UniformScale / PythonPWA / CachedPWA, for every newborn object; the "
                "overrides AlignmentAffine._set_h_matrix, AlignmentRotation.set_rotation_matrix, the three "
                "_from_vector_inplace, Homogeneous._compose_before_inplace / _compose_after_inplace (= the model's vEdit), "
-               "HomogFamilyAlignment.copy / pseudoinverse and ThinPlateSplines.pseudoinverse (= the model's pinv); "
+               "HomogFamilyAlignment.pseudoinverse and ThinPlateSplines.pseudoinverse (= the model's pinv, at value level: "
+               "matrix inverted, source and target swapped, kernel kind and floor passed on), HomogFamilyAlignment.copy "
+               "(value level: an equal object whose matrix is an owned array; independence of copies is NOT part of the "
+               "translated obligations - heap model, correspondence and oracle decide it); "
                "procrustes_alignment's plumbing (rotation=False composes no rotation, allow_mirror reaches only the "
                "rotation fit); MultipleAlignment.__init__ (argument checks), GeneralizedProcrustesAnalysis.__init__ and "
                "_recursive_procrustes: the recursion with the `n_iterations > max_iterations` exit and the convergence exit "
@@ -105,13 +108,29 @@ INFO = dict(
                "Lean term each Python expression / statement stands for) are trusted; what the rules do not translate but "
                "name: Affine._set_h_matrix and Rotation.set_rotation_matrix (numpy shape checks; Core/C08Py.lean: affineSetH, "
                "rotationSetR), Similarity._from_vector_inplace (the matrix a parameter vector stands for), every numpy "
-               "operation (abstract functions of `Np`, `GpaK`, `ProcK`).",
+               "operation (abstract functions of `Np`, `GpaK`, `ProcK`); which point set a TPS kernel is centred on (the "
+               "model's kernels are numbers: the rules exist only for `R2LogR2RBF(source.points)` in the constructor and "
+               "`type(self.kernel)(self.target.points)` in pseudoinverse, any other centre is untranslatable = a broken "
+               "obligation, but the equalities themselves do not mention the centre); ownership of arrays: `.copy()` / "
+               "`_h_matrix_pseudoinverse()` in HomogFamilyAlignment.copy / pseudoinverse are translated into a wrapper type "
+               "(`Owned`), so a dropped copy does not type-check, every other `.copy()`, `copy=` flag and in-place-versus-"
+               "rebinding distinction is invisible to the translated obligations - the aliasing / non-mutation clause is "
+               "decided by the oracle's byte digests, the measured read / write table, the measured copy table (copyTable_ok: "
+               "`c._h_matrix is not o._h_matrix` on live objects of every class) and the heap correspondence, not by them; the `if self.target is None: return` branch of _verify_target is dropped (constructed objects "
+               "always hold a target).  Read / write tracing (Generated/C08RW.lean) covers the instance attributes of the "
+               "alignment object on one sampled execution per class and option combination; state outside the instance "
+               "dictionary and data-dependent reads on other paths are the oracle's business.  The table instantiation "
+               "of the fits used by the driver (`tableExt`) ignores the *source* argument of every fit (one source per "
+               "case): a model that picked the wrong source would not be exposed by the driver, only by the theorems.  "
+               "The class families (`families()`, `MODEL_CLASSES`) are enumerated by hand; the concrete Alignment "
+               "subclasses of the live tree are listed in the evidence (`alignment_subclasses_live`) and counted when one "
+               "is not covered.",
     rule="a case = one history on one alignment object family (class, options, dimension): 1-6 set_target calls drawn "
          "from 3-5 valid targets (float64 / int64 / float32 arrays, some read-only), wrong-shaped targets, the source "
          "itself and PointClouds sharing an array, copies at random points, calls on copies, pure apply calls, in-place "
          "writes of the caller into target arrays followed by set_target with the very object held, parameter edits "
          "(from_vector_inplace / set_rotation_matrix / compose_before_inplace / compose_after_inplace) in between; or one "
-         "GPA run on 3-8 shapes (max_iterations 100 or pinned to 1-3); distinct = distinct (class, options, points, "
+         "GPA run on 2-8 shapes (max_iterations 100 or pinned to 1-3); distinct = distinct (class, options, points, "
          "history); non-trivial = at least two accepted set_target calls or a set_target after a copy (GPA: at least "
          "one re-targeting iteration)",
     partial=["the numerical fits are abstract functions in the theorems (their optimality is C07)",
@@ -140,7 +159,17 @@ INFO = dict(
              "the constructor assigns (100); a subclass pinning it (as the harness does to drive the other exit) is "
              "covered by genRecursiveProcrustes_eq, which holds for every max_iterations"],
     assumptions=["numpy / LAPACK SVD, solve and lstsq are deterministic and accurate to 1e-10 on the conditioned inputs "
-                 "the generators produce (singular values of every correlation matrix separated by >= 5% of the largest)"],
+                 "the generators produce (singular values of every correlation matrix separated by >= 5% of the largest)",
+                 "heap theorems: the caller never overwrites an array some alignment uses as its source (hypothesis "
+                 "LegalAct); operands of in-place compositions have class-shaped matrices (hypothesis ClassShaped)",
+                 "translated obligations are value level: aliasing, ownership of arrays (beyond the matrix of "
+                 "HomogFamilyAlignment.copy / pseudoinverse) and non-mutation are decided by the oracle's digests, the "
+                 "measured write table and the heap correspondence",
+                 "translated constructors: applying a transform keeps the number of points and dimensions "
+                 "(ApplyKeepsShape); TPS / PWA fits are the numpy expressions the code assembles (NpFits)",
+                 "a rejected set_target is any raised exception (ValueError is compared with the model as a "
+                 "correspondence item only); a rejected call is expected to leave the object the fresh alignment to its "
+                 "last accepted target"],
     design_ref="DESIGN.md section 6, C08; section 7 items 6 and 22; section 14.2 (seeded C08-1..4); section 14.5 "
                "(translator tie); notes/BUILDER_GUIDE.md (py2lean2)")
 IMPORTS = ["MenpoModel.Props.C08", "MenpoModel.GenProps.C08"]
@@ -212,6 +241,8 @@ THEOREMS = [
     "MenpoModel.GenProps.C08.rwTable_options",
     "MenpoModel.GenProps.C08.dispatch_ok",
     "MenpoModel.GenProps.C08.dispatch_covers",
+    "MenpoModel.GenProps.C08.copyTable_ok",
+    "MenpoModel.GenProps.C08.copyTable_covers",
 ]
 # obligations over the TRANSLATED source (Generated/C08Src.lean is rewritten from the source text on every run)
 SRC_THEOREMS = ["MenpoModel.GenProps.C08Src." + t for t in [
@@ -777,6 +808,14 @@ def do_edit(obj, case, kind, p):
         obj.compose_after_inplace(t)
 
 
+def named_state(obj):
+    """the state of an alignment the property names: which point sets it holds and their coordinates, its matrix"""
+    out = [id(obj.target), obj.target.points.tobytes(), id(obj.source), obj.source.points.tobytes()]
+    if hasattr(obj, "h_matrix"):
+        out.append(obj.h_matrix.tobytes())
+    return out
+
+
 def run_case(ctx, case, lines=None, pending=None, count=True):
     """run one history on the real code, apply the oracle after every call, queue the model query"""
     import numpy as np
@@ -900,7 +939,7 @@ def run_case(ctx, case, lines=None, pending=None, count=True):
             same_obj = objs[i].target is pcs[r]
             dig = None
             if not good:
-                dig = (common.deep_digest(vars(objs[i])), {kk: id(vv) for kk, vv in vars(objs[i]).items()})
+                dig = (named_state(objs[i]), common.deep_digest(vars(objs[i])))
             try:
                 objs[i].set_target(pcs[r])
                 raised = None
@@ -939,12 +978,17 @@ def run_case(ctx, case, lines=None, pending=None, count=True):
                     clean[i] = False
                     continue
                 if raised != "ValueError":
-                    ctx.fail(site, "mismatch-wrong-exception", "op %d: wrong-shaped target raised %s, not ValueError" % (k, raised), rp)
-                    ok_all = False
-                dig2 = (common.deep_digest(vars(objs[i])), {kk: id(vv) for kk, vv in vars(objs[i]).items()})
-                if dig2 != dig:
-                    ctx.mismatch("hist/rejected-digest", "op %d: the rejected set_target changed the object's attributes "
-                                 "(%s)" % (k, sorted(kk for kk in dig[1] if dig[1].get(kk) != dig2[1].get(kk)) or "values"), rp)
+                    # the property says "is rejected": any exception is a rejection.  That it is a ValueError is what
+                    # menpo's docstring and the model say - a correspondence item, not an oracle failure
+                    ctx.mismatch("hist/rejected-exception-kind", "op %d: wrong-shaped target raised %s, the model (and "
+                                 "the docstring of _verify_target) say ValueError" % (k, raised), rp)
+                dig2 = (named_state(objs[i]), common.deep_digest(vars(objs[i])))
+                if dig2[0] != dig[0]:
+                    # the state the property names: held point sets (identity and coordinates), matrix
+                    ctx.mismatch("hist/rejected-digest", "op %d: the rejected set_target changed the source / target / "
+                                 "matrix the object holds" % k, rp)
+                elif dig2[1] != dig[1]:
+                    ctx.count("rejected-call-touched-private-attributes")    # (a memo, a counter: not the property's business)
                 if clean[i]:
                     ok_all = compare(objs[i], tgt[i], "op %d (%s, rejected)" % (k, " ".join(map(str, op)))) and ok_all
         elif op[0] == "C":
@@ -977,6 +1021,8 @@ def run_case(ctx, case, lines=None, pending=None, count=True):
                 do_edit(objs[i], case, op[2], op[3])
             except Exception as e:
                 ctx.count("edit-raised:%s" % type(e).__name__)
+                ctx.mismatch("hist/edit-raised", "op %d: the parameter edit %s raised %s: %s (the model performs it)" % (
+                    k, op[2], type(e).__name__, str(e)[:100]), rp)
                 ok_all = False
                 break
             clean[i] = False
@@ -1323,6 +1369,15 @@ def run_gpa(ctx, case, lines=None, pending=None, count=True):
         ctx.fail(site, "raises", "GPA raised %s: %s" % (type(e).__name__, str(e)[:100]), rp)
         return True
     ok = True
+    if max_iter is not None and (getattr(g, "max_iterations", None) != max_iter or g.n_iterations > max_iter + 1):
+        # the implementation does not read its iteration bound from the attribute this harness pins (a local, a
+        # constant; the bound is not part of the property): the case runs with the library's own bound
+        ctx.count("gpa:max_iterations-pin-ignored")
+        max_iter = None
+        case = dict(case, max_iter=None)
+        targets, flags, near = ref_gpa(shapes, mirror, t0, 100)
+        if near or any(not rot_conditioned(S, T) for T in targets for S in shapes):
+            return False
     if not fixed_t:      # the property clause
         if len(g.transforms) != len(shapes):
             ctx.fail(site, "count", "%d transforms for %d shapes" % (len(g.transforms), len(shapes)), rp)
@@ -1531,9 +1586,34 @@ def dispatch_table():
     return sorted(rows)
 
 
+def copy_table():
+    """(impl class, model class, own matrix, shares source, shares target) measured with `is` on `o.copy()` of a live
+    object of every class (first option combination of each)"""
+    import numpy as np
+    from menpo.shape import PointCloud
+    rng = common.random.Random(20241)
+    rows, seen = [], set()
+    for fam in families():
+        mcls, icls, d, opts = fam
+        if icls in seen:
+            continue
+        seen.add(icls)
+        case = None
+        while case is None:
+            case = gen_case(rng, fam, n_ops=1)
+        vals = [np.array(X, dtype=float) for X in case["vals"]]
+        obj = make_obj(case, make_source(case, vals[0].copy()), PointCloud(vals[1].copy()))
+        c = obj.copy()
+        own = (not hasattr(obj, "_h_matrix")) or (c._h_matrix is not obj._h_matrix and
+                                                  not np.shares_memory(c._h_matrix, obj._h_matrix))
+        rows.append((icls, mcls, bool(own), c._source is obj._source, c._target is obj._target))
+    return sorted(rows)
+
+
 def generated(ctx):
     rows = rw_table()
     disp = dispatch_table()
+    crows = copy_table()
 
     def sl(xs):
         return "[" + ", ".join('"%s"' % x for x in xs) + "]"
@@ -1546,20 +1626,48 @@ def generated(ctx):
            "import MenpoModel.Core.C08Frame\n\nnamespace MenpoModel.Generated.C08\nopen MenpoModel.C08\n\n"
            "def rwTable : List RWRow :=\n  [%s]\n\n"
            "/-- which class supplies which method, from the live MROs -/\n"
-           "def dispatchTable : List Dispatch :=\n  [%s]\n\nend MenpoModel.Generated.C08\n" % (
+           "def dispatchTable : List Dispatch :=\n  [%s]\n\n"
+           "/-- what `o.copy()` shares with `o`, measured with `is` on live objects -/\n"
+           "def copyTable : List CopyRow :=\n  [%s]\n\nend MenpoModel.Generated.C08\n" % (
                body, ",\n   ".join('⟨"%s", .%s, [%s]⟩' % (i, m, ", ".join('("%s", "%s")' % p for p in sup))
-                                   for i, m, sup in disp)))
+                                   for i, m, sup in disp),
+               ",\n   ".join('⟨"%s", .%s, %s, %s, %s⟩' % (i, m, str(a).lower(), str(b).lower(), str(c).lower())
+                              for i, m, a, b, c in crows)))
+    ctx.notes["copy_sharing_table"] = {i: {"own_matrix": a, "shares_source": b, "shares_target": c} for i, m, a, b, c in crows}
     ctx.notes["method_resolution"] = {i: dict(sup) for i, m, sup in disp}
     ctx.notes["set_target_read_write_table"] = {"%s %s" % (i, lab): {"reads": r, "writes": w, "in_place": ip}
                                                 for i, m, lab, r, w, ip, at in rows}
     ok = common.build_generated(ctx, {"MenpoModel/Generated/C08RW.lean": gen},
-                                ["MenpoModel.Generated.C08RW", "MenpoModel.GenProps.C08"], 5)
+                                ["MenpoModel.Generated.C08RW", "MenpoModel.GenProps.C08"], 7)
     ctx._c08_rw_ok = ok
     if not ok and ctx.broken_obligations:
-        ctx.broken_obligations[-1]["obligation"] = "MenpoModel.GenProps.C08.rwTable_ok / rwTable_covers / rwTable_options / dispatch_ok / dispatch_covers"
+        ctx.broken_obligations[-1]["obligation"] = "MenpoModel.GenProps.C08.rwTable_ok / rwTable_covers / rwTable_options / dispatch_ok / dispatch_covers / copyTable_ok / copyTable_covers"
         ctx.broken_obligations[-1]["observed"] = ctx.notes["set_target_read_write_table"]
     ok2 = generated_src(ctx)
+    try:
+        live_alignment_classes(ctx)
+    except Exception as e:
+        ctx.notes["alignment_subclasses_live"] = "not enumerated: %r" % (e,)
     return ok and ok2
+
+
+def live_alignment_classes(ctx):
+    """the concrete Alignment subclasses of the live tree against the families this check enumerates by hand"""
+    import menpo.transform  # noqa: F401  (loads the subclasses)
+    from menpo.transform.base.alignment import Alignment
+    import inspect
+
+    def subs(c):
+        out = []
+        for k in c.__subclasses__():
+            out += [k] + subs(k)
+        return out
+    live = sorted({k.__name__ for k in subs(Alignment) if k.__module__.startswith("menpo.") and not inspect.isabstract(k)})
+    covered = {f[1] for f in families()} | {"CachedPWA", "AbstractPWA", "HomogFamilyAlignment", "CythonPWA"}
+    ctx.notes["alignment_subclasses_live"] = live
+    for name in live:
+        if name not in covered:
+            ctx.count("alignment-class-not-in-families:" + name)
 
 
 def generated_src(ctx):
